@@ -132,6 +132,9 @@ func c19Ufs(x *Ctx) {
 	os.MkdirAll(filepath.Join(u.Root, "shared", "d1", "d2"), 0o755)
 	for i := 0; i < 6; i++ {
 		os.WriteFile(filepath.Join(u.Root, "shared", fmt.Sprintf("e%d", i)), pattern(100*i, 1, 1, 1), 0o644)
+		// owners the server has not met before (ids drawn per case): whatever it remembers about users and groups
+		// is first filled while the callers are at work, in this process as in a fresh one
+		os.Chown(filepath.Join(u.Root, "shared", fmt.Sprintf("e%d", i)), 61000+int(c.Seed%2000)*8+i, 63000+int(c.Seed%2000)*8+i)
 	}
 	go9p.DefaultDebuglevel, go9p.DefaultLogger = 0, nil
 	n := int(c.cfg("callers"))
